@@ -21,6 +21,8 @@ def units(tier, seed):
         u["seed"], u["tier"], u["mode"] = seed, tier, "mutate"
         if tier == "quick" and u["kind"] != "struct":
             u["subst_alphabet"] = (0x00, 0x01, 0x20, 0x40, 0x80, 0xFF)
+        if tier == "thorough" and u["kind"] != "struct":
+            u["subst_base_only"] = True  # frames: all ten substitute bytes on the default base case; deviated cases get cuts / suffixes / flags
     structs, prims = cases.struct_roots()
     targets = structs + prims + ["Command", "CommandResponseStream"]
     for t in targets:
